@@ -13,6 +13,8 @@ R17.1  per-file logger state: for every data member of CppCheck::CppCheckLogger 
        accumulators by design, are in the reasoned tables.
 R17.2  no static-storage variable is written / mutated by code reachable from CppCheck::check other than
        const objects, mutexes and the standard streams; memo tables are listed with the key they use.
+R17.4  a function-local static reachable from CppCheck::check is not initialised from parameters, locals or `this`
+       (it would keep the first file's value for the whole run); run-constant exceptions are tabled.
 R17.3  option objects: every write to a member of Settings / Platform / Standards / Library in code reachable
        from CppCheck::check goes to a local copy (the base of the member expression, or the object a mutating
        method is called on, is a local non-reference variable), and CppCheck::mSettings is a const reference.
@@ -39,6 +41,11 @@ STATIC_UNDECIDED = {
     'evaluateLibraryFunction::functions@static': 'thread_local memo of parsed <returnValue> expressions keyed by the expression text only, while the parse also depends on the '
                                                  'language flag and on settings (constant folding): a later file with another language/platform reuses the first file\'s parse. '
                                                  'No shipped cfg expression is language/platform dependent, so no failing input could be constructed; listed, not armed',
+}
+# function-local statics whose initialiser reads per-call state but is the same for the whole run
+LOCAL_STATIC_RUN_CONSTANT = {
+    ('executeAddon', 'detectedPythonExe'): 'initialised from the executeCommand callback, which is the same function for the whole process',
+    ('CheckInstancesImpl::get', 's_checks'): 'the registry of Check singletons; `this` is the one process-wide instance',
 }
 OPTION_CLASSES = ('Settings', 'Platform', 'Standards', 'Library')
 
@@ -190,6 +197,39 @@ def run(ctx):
     ctx.counts['static-storage variables mutated or address-taken in the per-file analysis'] = seen
     ctx.ob('R17.2', 'statics-census', True, '%d static-storage variables are touched non-read-only by the per-file analysis; all but the listed ones are const' % seen,
            'lib/')
+
+    # ---- R17.4 function-local statics are initialised once, by the first file that gets there -----------------------------
+    ctx.rule('R17.4', 'function-local statics in the per-file analysis are not initialised from per-call state')
+    nstat = 0
+    for k, (f, _, _) in T.items():
+        b = F.body(f)
+        if b is None:
+            continue
+        locs = None
+        for x in walk(b['body']):
+            if x.get('k') == 'VarDecl' and x.get('static') and x.get('init') is not None:
+                nstat += 1
+                if locs is None:
+                    locs = {y['di'] for y in walk(b['body']) if y.get('k') == 'VarDecl' and not y.get('static')}
+                dep = []
+                for y in walk(x['init']):
+                    if y.get('k') == 'CXXThisExpr':
+                        dep.append('this')
+                    elif y.get('k') == 'DeclRefExpr' and y.get('dk') == 'ParmVar':
+                        dep.append('parameter ' + y['n'])
+                    elif y.get('k') == 'DeclRefExpr' and y.get('dk') == 'Var' and y.get('di') in locs:
+                        dep.append('local ' + y['n'])
+                if not dep:
+                    continue
+                where = '%s:%s' % (f['file'], x['l'])
+                if (f['name'], x['n']) in LOCAL_STATIC_RUN_CONSTANT:
+                    ctx.ob('R17.4', 'local-static:%s:%s' % (f['name'], x['n']), True, 'static %s in %s is initialised from %s: %s'
+                           % (x['n'], f['name'], dep[0], LOCAL_STATIC_RUN_CONSTANT[(f['name'], x['n'])]), where)
+                else:
+                    ctx.ob('R17.4', 'local-static:%s:%s' % (f['name'], x['n']), False,
+                           'function-local static %s (%s) in %s is initialised from %s: it keeps the value computed for the first file (language, settings, token) for every '
+                           'later file of the run' % (x['n'], x.get('t'), f['name'], ', '.join(sorted(set(dep)))), where)
+    ctx.floor('R17.4 function-local statics with an initialiser in the per-file analysis', nstat, 30)
 
     # ---- R17.3 --------------------------------------------------------------------------------------------------------
     mutators = set()     # methods of option classes that write *this
